@@ -48,6 +48,10 @@ func schemaRefField(pkg, desc string) *schema_j5pb.Field {
 // visitors on those.
 func (ent *entityNode) run(visitor FileVisitor) error {
 
+	if err := ent.checkReservedNames(); err != nil {
+		return err
+	}
+
 	if ent.Schema.BaseUrlPath == "" {
 		pkgParts := strings.Split(ent.packageName, ".")
 		pkgParts = append(pkgParts, strcase.ToSnake(ent.Schema.Name))
@@ -91,6 +95,64 @@ func (ent *entityNode) run(visitor FileVisitor) error {
 		ss := mapNested(ent.Source, nil, ent.Schema.Schemas)
 		if err := ss.RangeNestedSchemas(visitor); err != nil {
 			return err
+		}
+	}
+
+	return nil
+}
+
+// checkReservedNames rejects, at its source position, a declaration that uses a
+// name the expansion itself puts into the same message: the generated message
+// would define the field twice, which otherwise only surfaces as a link error
+// ('symbol ... already defined') positioned in a generated file.
+func (ent *entityNode) checkReservedNames() error {
+	reserved := func(source SourceNode, what, name, why string) error {
+		return wrapErr(source, walkerErrorf("%s name %q is reserved: %s", what, name, why))
+	}
+
+	// the entity's own property in the responses of the query service (acceptQuery)
+	own := strcase.ToSnake(strcase.ToLowerCamel(ent.name))
+	if own == "page" {
+		return reserved(ent.Source, "entity", ent.Schema.Name,
+			"the List response holds the entities in a field of that name next to its 'page' field")
+	}
+	if own == "events" && ent.Schema.Query != nil && ent.Schema.Query.EventsInGet {
+		return reserved(ent.Source, "entity", ent.Schema.Name,
+			"with eventsInGet the Get response holds the entity in a field of that name next to its 'events' field")
+	}
+
+	// keys which are part of the query path (see acceptQuery) are fields of the
+	// List and Events requests, next to 'page' and 'query'
+	for idx, key := range ent.Schema.Keys {
+		kk := key.Def.Schema.GetKey()
+		if kk == nil {
+			continue
+		}
+		if !key.ShardKey && !(kk.Entity != nil && kk.Entity.GetPrimaryKey()) {
+			continue
+		}
+		switch strcase.ToSnake(key.Def.Name) {
+		case "page", "query":
+			return reserved(ent.Source.child("keys", strconv.Itoa(idx)), "key", key.Def.Name,
+				"a primary or shard key is a field of the List and Events requests, which have a field of that name")
+		}
+	}
+
+	// the option of an event in the event oneof, next to the proto oneof 'type'
+	for idx, event := range ent.Schema.Events {
+		if strcase.ToSnake(strcase.ToLowerCamel(event.Def.Name)) == "type" {
+			return reserved(ent.Source.child("events", strconv.Itoa(idx)), "event", event.Def.Name,
+				"its option in the event oneof would be named like the proto oneof 'type' which holds the options")
+		}
+	}
+
+	// summary fields, next to the 'upsert' metadata of the upsert message
+	for idx, summary := range ent.Schema.Summaries {
+		for fieldIdx, field := range summary.Fields {
+			if strcase.ToSnake(field.Name) == "upsert" {
+				return reserved(ent.Source.child("summaries", strconv.Itoa(idx), "fields", strconv.Itoa(fieldIdx)), "summary field", field.Name,
+					"the upsert message has a field of that name")
+			}
 		}
 	}
 
